@@ -20,6 +20,9 @@
 //!       (18 3 3 el prec v)                        Record / Trace Display (i64: Record constant, variable, Trace; Tok: Trace through its public fields)
 //!       (18 3 4 prec n (l...) (d...))             LDLTDecomposition<i64>::from_unchecked Display
 //!       (18 3 5 prec rows cols (v...))            RecordMatrix<i64> / RecordTensor<i64, 2> Display -> (0 (tm tt))
+//!       wave 2 (harness/src/c18/wave2.rs; grammar in Run/RunC18.v): kinds 1, 2 for every D <= 6;
+//!       (18 3 6 form err)  error values as Display / {:?} / {:#?};  (18 3 7 form val)  derived Debug of plain data;
+//!       (18 3 8 prec kind ..)  QR / LDLT-tensor / QR-tensor decompositions and MatrixQuadrants Display
 //!     el: 0 = i64, 1 = Tok(i64) (Display prints "<v>p<k>" under precision k); prec: () = "{}", (k) = "{:.k}";
 //!     every text is produced twice and through every listed form; all must agree (else (-8 code)).
 use crate::guarded;
@@ -39,6 +42,8 @@ use easy_ml::tensors::views::{TensorStack, TensorView};
 use easy_ml::tensors::Tensor;
 use std::fmt::Debug;
 use std::hint::black_box;
+
+mod wave2;
 
 pub fn run(args: &[Sx]) -> Sx {
     match args.first().and_then(|x| x.i64()) {
@@ -178,7 +183,7 @@ fn format_case(a: &[Sx]) -> Option<Sx> {
         }
         (1, 5) => {
             let (el, prec, shape, data) = (a[1].i64()?, dprec(&a[2])?, a[3].pairs_usize()?, a[4].i64s()?);
-            if shape.len() > 3 || !valid_shape(&shape, data.len()) {
+            if shape.len() > 6 || !valid_shape(&shape, data.len()) {
                 return None;
             }
             match el {
@@ -192,7 +197,7 @@ fn format_case(a: &[Sx]) -> Option<Sx> {
         }
         (2, 6) => {
             let (el, prec, shape, data, swap) = (a[1].i64()?, dprec(&a[2])?, a[3].pairs_usize()?, a[4].i64s()?, a[5].bool()?);
-            if shape.len() > 2 || !valid_shape(&shape, data.len()) {
+            if shape.len() > 6 || !valid_shape(&shape, data.len()) {
                 return None;
             }
             match el {
@@ -254,6 +259,9 @@ fn format_case(a: &[Sx]) -> Option<Sx> {
             };
             ok(l(vec![text_sx(&tm), text_sx(&tt)]))
         }
+        (6, _) => return wave2::error_case(&a[1..]),
+        (7, _) => return wave2::debug_case(&a[1..]),
+        (8, _) => return wave2::decomposition_case(&a[1..]),
         _ => return None,
     })
 }
